@@ -177,12 +177,13 @@ def find_loader(flow: Flow):
     """the function through which table text enters the gate-appending code: the callee of the call that receives a
     field of a table line as an argument, in whose dynamic extent all table-derived gates are appended"""
     from .rules_flow import _pure_table_field
-    entry, emitters = set(), set()
+    entry, emitters, stacks = set(), set(), []
     for fq in ("stabilizer_circuits.get_readout_circuit", "mub_circuits.get_mub_circuits"):
         for r in flow.paths(fq):
             for ev in r.events:
                 if ev[0] == "tgate-emit":
                     emitters.add(ev[1])
+                    stacks.append(set(ev[4]))
                 elif ev[0] == "call" and any(_pure_table_field(vkey(a)) for a in ev[2]):
                     try:
                         g = flow.prog.func(ev[1])
@@ -195,7 +196,8 @@ def find_loader(flow: Flow):
     if len(entry) > 1:
         # several functions receive the table text (a tokenizer next to the builder): the loader is the one in whose
         # extent the gates are appended
-        reach = {fq for fq in entry if fq in emitters or ({g.fq for g in flow.prog.closure([flow.prog.func(fq)], may=True)} & emitters)}
+        dyn = {fq for fq in entry if stacks and all(fq in st for st in stacks)}      # on the call stack of every emission
+        reach = dyn or {fq for fq in entry if fq in emitters or ({g.fq for g in flow.prog.closure([flow.prog.func(fq)], may=True)} & emitters)}
         entry = reach or entry
     return entry or emitters
 
